@@ -46,8 +46,10 @@ func (e *Eval) builtin(fr *Frame, cc *ssa.CallCommon, b *ssa.Builtin, args []Val
 	case "delete":
 		u := cc.Args[0].Type().Underlying().(*types.Map)
 		dom, _ := e.mapComps(u)
+		pre := st.Clone()
 		d := c.Get(st, dom)
 		c.Set(st, dom, sto(d, args[0].T, sto(sel(d, args[0].T), args[1].T, "false")))
+		e.tableUpdate(st, u, args[0].T, args[1].T, "", pre)
 		e.afterMapUpdate(fr, st, u, args[0].T, cur, nil)
 		return ret()
 	case "close":
@@ -210,6 +212,21 @@ func (e *Eval) hardcoded(fr *Frame, cc *ssa.CallCommon, fn *ssa.Function, args [
 		t := cc.Args[1].Type()
 		nv := c.Define(site, c.Sort(t), "(bvadd "+e.load(st, args[0], t)+" "+args[1].T+")")
 		e.store(st, args[0], t, nv)
+		if a := args[0].A; a != nil && a.Kind == "field" && len(a.Path) == 0 {
+			if r := e.ruleFor(a.Comp); r != nil && r.Kind == "refcount" {
+				e.declOwed()
+				w, _, _ := isInt(t)
+				if d, ok := bvLitValue(args[1].T, w); ok {
+					o := c.Get(st, "$owed")
+					if d < 0 {
+						e.oblige("refs@"+site+"/drops-only-held-reference", "refcount", r.Props, cur, "(>= "+sel(o, a.Base)+" 1)", "a reference is dropped only by an invocation that holds one (acquired by lookup / IncRef / creation, or taken over from a table entry or link)", r.Where)
+					}
+					c.Set(st, "$owed", sto(o, a.Base, fmt.Sprintf("(+ %s %s)", sel(o, a.Base), smtInt(d))))
+				} else {
+					c.Unsupported("atomic add of a non-constant to a reference count in %s", fr.fn)
+				}
+			}
+		}
 		return ret(Val{T: nv})
 	case "sync/atomic.LoadInt64", "sync/atomic.LoadInt32", "sync/atomic.LoadUint32", "sync/atomic.LoadUint64":
 		c.Assume("sync/atomic: sequential semantics (linearizability trusted)")
